@@ -1,4 +1,5 @@
 import KG.Driver.Loop
+import KG.Driver.C03
 import KG.Driver.C14
-/-! Model driver for property C14 (one executable per property, so that properties stay independent). -/
-def main : IO Unit := KG.Driver.runLoop [("C14", KG.Driver.C14.handle)]
+/-! Model driver for property C14 (uses the C03 endpoint model as well). -/
+def main : IO Unit := KG.Driver.runLoop [("C14", KG.Driver.C14.handle), ("C03", KG.Driver.C03.handle)]
